@@ -1031,6 +1031,19 @@ def do_read(run, x, kind):
                 pass
 
             TV().transform(x)
+
+            # ... and one that rebuilds every leaf, hence every ancestor of a leaf (seeded change C10-13: rebuilding
+            # through node.replace un-registers the originals); the rebuilt tree is dropped at once
+            import dataclasses
+
+            class TV2(ASTTransformVisitor):
+                def generic_visit(self, node):
+                    if not node.children:
+                        return dataclasses.replace(node)
+                    return super().generic_visit(node)
+
+            res = TV2().transform(x)
+            del res
         elif kind == 12:
             x.to_msgpck()
             x.to_yaml()
